@@ -20,11 +20,11 @@ CONSTANTS
   CallExtraKw = {"z"}
   CallsWithReq = FALSE
   DevKwEval = FALSE
-VIEW ViewUnordered
+VIEW ViewNoOutUnordered
 CONSTRAINT HooksBound
 INVARIANT C11_StoreValid
-INVARIANT C12_LockedIsValidated
-INVARIANT C20_Pristine
+PROPERTY C12_LockedIsValidatedA
+PROPERTY C20_PristineA
 PROPERTY C12_Guard
 PROPERTY C12_UnlockRestores
 PROPERTY C12_FinalizeAtomic
